@@ -1609,6 +1609,8 @@ class Interp:
             return any(self.identity(l, x) for x in r.items)  # members of one enumeration
         if isinstance(r, DictV) and isinstance(l, Const) and all(isinstance(k, Const) for k, _ in r.items):
             return any(k == l for k, _ in r.items)
+        if isinstance(r, DictV) and isinstance(l, (Const, ObjV, ClassV)) and all(isinstance(k, (Const, ObjV, ClassV)) for k, _ in r.items):
+            return any(k == l for k, _ in r.items)  # distinct known objects / constants as keys
         return None
 
     def e_Await(self, node, cfg, out):
